@@ -1,7 +1,7 @@
 (* C13 -- TwoLevel: periodic disk checkpoints, binomially optimal recomputation
    Property theorems only: each proof is one application of a lemma proved in Proofs/, followed by Print Assumptions. *)
 From Coq Require Import ZArith List Bool.
-From CS Require TLInv TLSweep Online.
+From CS Require TLInv TLSweep Online TLStorage HRevUses.
 From CS Require Import Actions NAdvance Multistage Exec Sched RunFacts Projections BasicInv MultistageRun AllocTotal TLBridge MixBridge.
 Import ListNotations.
 Open Scope Z_scope.
@@ -71,10 +71,46 @@ Proof. exact (@TLInv.block_total). Qed.
 Print Assumptions C13_block_total.
 End M_C13_block_total.
 
-(* PARTIAL: that extra checkpoints go only to the binomial storage is contained in the executor bridge (every accepted checkpointing Forward inside a block names bst) and in the budgets of the run theorem (0 units in the other storage), but is not stated as a separate theorem *)
-Module M_C13_storage_of_extra_checkpoints_partial.
+(* STORAGES, every history: a yielded Forward that stores a restart checkpoint names DISK or the binomial storage and stores nothing else; adjoint dependencies go to WORK only; a checkpoint is loaded into WORK from DISK or from the binomial storage *)
+Module M_C13_storages.
+Import TLStorage.
+Theorem C13_storages :
+  forall (p bs : Z) (bst : Actions.storage) (tr : NAdvance.traj) (pr : Exec.xparams)
+           (ops : list Sched.op) (o0 : Sched.obs) (m : Sched.mon) (ls : list Sched.line),
+         Sched.run_case (Sched.PTwo p bs bst tr) pr ops = Actions.Ok (o0, m, ls) ->
+         Forall (HRevUses.act_line (st_ok bst)) ls.
+Proof. exact (@TLStorage.twolevel_storages). Qed.
+Print Assumptions C13_storages.
+End M_C13_storages.
+
+(* ... sharper, per request and from every state: while max_n is unknown a checkpointing Forward is Forward(n, n + period, True, False, DISK); once it is known, it goes to the binomial storage *)
+Module M_C13_storages_step.
+Import TLStorage.
+Theorem C13_storages_step :
+  forall (fuel : nat) (o : Online.st) (p bs : Z) (bst : Actions.storage) (tr : NAdvance.traj)
+           (o' : Online.st) (a : Actions.action),
+         two o p bs bst tr ->
+         Online.resume fuel o = (o', Actions.Yield a) ->
+         two o' p bs bst tr /\
+         match a with
+         | Actions.Forward n0 n1 wi wa sg =>
+             (wi = true ->
+              wa = false /\
+              (Online.max_n_ (Online.b o) = None /\ sg = Actions.DISK /\ n1 = n0 + p \/
+               Online.max_n_ (Online.b o) <> None /\ sg = bst)) /\
+             (wa = true -> wi = false /\ sg = Actions.WORK) /\ (wi = false -> wa = false -> sg = Actions.WORK)
+         | Actions.Copy _ src dst | Actions.Move _ src dst =>
+             dst = Actions.WORK /\ (src = Actions.DISK \/ src = bst)
+         | _ => True
+         end.
+Proof. exact (@TLStorage.resume_two_storage). Qed.
+Print Assumptions C13_storages_step.
+End M_C13_storages_step.
+
+(* (auxiliary) the executor bridge of the TwoLevel invariant machine *)
+Module M_C13_exec_bridge.
 Import TLBridge.
-Theorem C13_storage_of_extra_checkpoints_partial :
+Theorem C13_exec_bridge :
   forall (N P bs : Z) (bst : Actions.storage),
          1 <= N ->
          1 <= P ->
@@ -87,6 +123,6 @@ Theorem C13_storage_of_extra_checkpoints_partial :
          Exec.check (ptl N P bs bst) true false X a = None /\
          Rx N P bst x' (Exec.apply (ptl N P bs bst) false X a) /\ NNx x'.
 Proof. exact (@TLBridge.tl_exec_agrees). Qed.
-Print Assumptions C13_storage_of_extra_checkpoints_partial.
-End M_C13_storage_of_extra_checkpoints_partial.
+Print Assumptions C13_exec_bridge.
+End M_C13_exec_bridge.
 
